@@ -75,7 +75,7 @@ func SpecBar(s string, f, i int) bool {
 
 //@ lemma LemmaCloseFrom
 //@   tags C19 C02
-//@   requires 0 <= f && f <= i && i <= len(s)
+//@   requires 0 <= f && f <= i
 //@   decreases len(s) - i
 //@   ensures SpecCloseFrom(s, f, i) == -1 || (i <= SpecCloseFrom(s, f, i) && SpecCloseFrom(s, f, i) < len(s))
 //@   ensures implies(SpecCloseFrom(s, f, i) >= 0, SpecDepth(s, f, SpecCloseFrom(s, f, i)+1) <= 0)
@@ -103,3 +103,31 @@ func LemmaCloseFrom(s string, f, i int) {
 //@   loop 0 invariant parensCounter == SpecDepth(input, groupBodyStart, index)
 //@   loop 0 invariant hasAlternation == SpecBar(input, groupBodyStart, index)
 //@   loop 0 decreases SpecCloseIdx(input, groupBodyStart) + 1 - index
+
+func byteStr(b byte) string { return string([]byte{b}) }
+
+// SpecRemoveGroup: text of s with the group header s[gs:bs] and the closing
+// parenthesis at e removed; a plain group is kept around the body when keep is set.
+func SpecRemoveGroup(s string, gs, bs, e int, keep bool) string {
+	if keep {
+		return s[:gs] + "(?:" + s[bs:e] + ")" + s[e+1:]
+	}
+	return s[:gs] + s[bs:e] + s[e+1:]
+}
+
+//@ contract Operator.removeGroup
+//@   tags C19 C02
+//@   results r
+//@   requires 0 <= groupStart && groupStart <= bodyStart && bodyStart <= len(input)
+//@   requires closed: SpecCloseIdx(input, bodyStart) >= 0
+//@   use entry LemmaCloseFrom(input, bodyStart, bodyStart)
+//@   modifies o.groupReplacementStringBuilder
+//@   ensures r == SpecRemoveGroup(input, groupStart, bodyStart, SpecCloseIdx(input, bodyStart), SpecBar(input, bodyStart, SpecCloseIdx(input, bodyStart)+1) && !ignoreAlternations)
+
+//@ contract Operator.removeOutermostNonCapturingGroup
+//@   tags C19 C02
+//@   results r
+//@   requires closed: implies(len(input) >= 4 && input[0] == '(' && input[1] == '?' && input[2] == ':', SpecCloseIdx(input, 3) >= 0)
+//@   use entry LemmaCloseFrom(input, 3, 3)
+//@   modifies o.groupReplacementStringBuilder
+//@   ensures r == input || (len(input) >= 4 && SpecCloseIdx(input, 3) == len(input)-1 && r == SpecRemoveGroup(input, 0, 3, len(input)-1, false))
